@@ -350,7 +350,7 @@ def run_batches(build, items, workdir, workers=None, warm=True, snap=True, timeo
         ini = os.path.join(ctx.etc, "snoopy.ini") if can_ns else build["ini"]
         cmd = ["env", "LD_PRELOAD=" + pre] + ["%s=%s" % kv for kv in SAN_ENV.items()] + [ "XDRV_INI=" + ini, os.path.join(c.BUILD, "xdrv"), sp, op]
         if pidns:                                  # a private pid namespace (own pid_max, pids chosen with clone3 set_tid) with its own /proc
-            cmd = ["unshare", "-p", "-f", "--mount-proc"] + cmd
+            cmd = ["unshare", "-p", "-f", "--kill-child", "--mount-proc"] + cmd
         env = {"PATH": "/usr/sbin:/usr/bin:/sbin:/bin", "HOME": "/root", "LANG": "C", "TZ": "UTC"}
         try:
             p = subprocess.run(cmd, env=env, capture_output=True, timeout=timeout, stdin=subprocess.DEVNULL, cwd=ctx.w)
